@@ -82,7 +82,16 @@ fn run_chunker(run: &Run, out: &mut Trace) {
     let fuel = 3 * stream.len() + 8;
     let mut eof = false;
     let mut kept: Vec<owning_iovec::AnchoredSlice> = Vec::new(); // every Data chunk handed out stays reachable
+    // "keep": false - the caller drops every chunk at once; "between": what it does to its arena between two pumps
+    let keep = run.cfg["keep"].as_bool().unwrap_or(true);
+    let between = run.cfg["between"].as_str().unwrap_or("").to_string();
     for _ in 0..fuel {
+        match between.as_str() {
+            "flush" => arena.flush_cache(),
+            "replace" => arena = ByteArena::new(),
+            "ensure" => arena.ensure_capacity(70000),
+            _ => {}
+        }
         let r = guarded(|| ch.pump(&mut arena, &mut rd, block));
         match r {
             Ok(Ok(Chunk::Eof)) => {
@@ -95,7 +104,9 @@ fn run_chunker(run: &Run, out: &mut Trace) {
             }
             Ok(Ok(Chunk::Data((off, slice)))) => {
                 out.emit(&json!({"run":run.run,"ev":"chunk","k":"D","off":off,"data":slice.slice(),"panic":"","err":""}));
-                kept.push(slice);
+                if keep {
+                    kept.push(slice);
+                }
             }
             Ok(Err(e)) => {
                 out.emit(&json!({"run":run.run,"ev":"chunk","k":"X","off":0,"data":[],"panic":"","err":format!("{:?}", e.kind())}));
@@ -114,7 +125,7 @@ fn run_chunker(run: &Run, out: &mut Trace) {
     let is_live = |a: usize, l: usize| l == 0 || live.iter().any(|(_, b, n)| a >= *b && a + l <= b + n);
     let dangling = kept.iter().filter(|k| !is_live(k.slice().as_ptr() as usize, k.slice().len())).count();
     let again: Vec<Value> = if dangling == 0 { kept.iter().map(|k| json!(k.slice())).collect() } else { vec![] };
-    out.emit(&json!({"run":run.run,"ev":"recheck","dangling":dangling,"chunks":again}));
+    out.emit(&json!({"run":run.run,"ev":"recheck","dangling":dangling,"chunks":again,"kept":keep as u8}));
     drop(kept);
     out.emit(&json!({"run":run.run,"ev":"end","eof":eof as u8,"delivered":rd.pos}));
 }
